@@ -291,8 +291,14 @@ def run_group(scratch, cfg_name, harnesses, jobs=None, extra_args=None):
     """Run all harnesses of one build configuration. cargo-kani keeps the output of every harness of an invocation in memory
     (observed: 20 GB for 29 harnesses), so a group is split into invocations of at most BATCH harnesses."""
     results, infos = {}, []
-    for k in range(0, len(harnesses), BATCH):
-        r, info = _run_batch(scratch, cfg_name, harnesses[k:k + BATCH], jobs, extra_args)
+    # thorough-tier harnesses with a declared budget of 25 minutes or more write hundreds of MB of solver output each, which
+    # kani-driver keeps in memory until the invocation ends (a batch of six of them took the driver past 18 GB and the whole
+    # batch was lost): they go two per invocation. Quick-tier harnesses keep the plain batching.
+    heavy = [h for h in harnesses if h.tier != "quick" and (h.declared_timeout >= 1500 or h.name == "c03_from_l2_pts")]
+    light = [h for h in harnesses if h not in heavy]
+    chunks = [light[k:k + BATCH] for k in range(0, len(light), BATCH)] + [heavy[k:k + 2] for k in range(0, len(heavy), 2)]
+    for chunk in chunks:
+        r, info = _run_batch(scratch, cfg_name, chunk, jobs, extra_args)
         results.update(r)
         infos.append(info)
     info = {"cmd": " ;; ".join(i["cmd"] for i in infos), "wall_s": round(sum(i["wall_s"] for i in infos), 1),
